@@ -123,9 +123,7 @@ def run(tier, seed, replay=None):
     bad_src = audit_sources()
     gen = gen_coq()
     ok, log, fails = coq_make([PROP + 'o'])
-    stats = proof_stats(PROP) if ok else {'ok': False, 'obligations': 0, 'discharged': 0, 'closure': coq_closure(PROP)}
-    if not stats.get('obligations'):
-        stats.update({k: v for k, v in proof_stats(PROP).items() if k in ('obligations', 'discharged', 'closure', 'property_theorems')})
+    stats = proof_stats(PROP, failed_files={f for f, _, _, _ in fails})
     proofs_ok = ok and stats['ok'] and not bad_src and all(str(v).startswith('ok') for k, v in gen.items() if k in ('Gen_layout', 'Gen_router'))
     tab, err = enum_table(res, maxn, maxp)
     tie_msg = None
